@@ -306,6 +306,39 @@ def flags_flow(ctx, rule='C16.flags-flow'):
     return res
 
 
+def thresholds(ctx, rule='C16.thresholds'):
+    """split / merge decisions are relative to the configured page size, not to a constant"""
+    res = []
+    F = ctx.facts
+    n = 0
+    for fn in F.fns:
+        if not (fn.self_adt and last_seg(fn.self_adt) == 'Node') or fn.kind == 'Closure':
+            continue
+        du = None
+        for bb in sorted(fn.reachable_blocks()):
+            for si, s in enumerate(fn.blocks[bb]['stmts']):
+                if s['k'] != 'assign' or s['rv']['k'] != 'bin' or s['rv']['op'] not in ('Lt', 'Le', 'Gt', 'Ge'):
+                    continue
+                du = du or ctx.du(fn)
+                _, aa = du.slice_operand(s['rv']['a'])
+                _, ab = du.slice_operand(s['rv']['b'])
+                sized = [x for x in (aa, ab) if any(y[0] == 'call' and y[2] in F.by_path and F.by_path[y[2]].name == 'size' for y in x)]
+                if not sized:
+                    continue
+                other = ab if sized[0] is aa else aa
+                n += 1
+                if has_field(other, 'Node', 'pagesize') or has_field(aa | ab, 'Node', 'pagesize'):
+                    res.append(ok(rule, 'node size compared with a threshold derived from the page size at %s' % fn.loc(bb, si), sites=1))
+                else:
+                    res.append(bad(rule, '%s | node size compared with a constant' % fn.qual,
+                                   '%s compares the serialised node size at %s with a value that does not depend on the configured page size: split / merge behaviour would differ between page sizes '
+                                   '(nodes overflow their page at small sizes, or never split at large ones)' % (fn.qual, fn.loc(bb, si)), where=fn.loc(bb, si)))
+    f = floor(rule, 'comparisons of a node size with a threshold', n, 2)
+    if f:
+        res.append(f)
+    return res
+
+
 def run(ctx, tier):
     ob = commit.obligations(ctx)
     results = []
@@ -316,6 +349,7 @@ def run(ctx, tier):
     results += no_pow2_arith(ctx)
     results += remap_always(ctx)
     results += flags_flow(ctx)
+    results += thresholds(ctx)
     return dict(
         results=results, stats=dict(ctx.stats),
         explanation=(
